@@ -270,10 +270,12 @@ fn roundtrip_once<F: Fl>(c: &CCase, w: &World<F>, g: &F::Graph) -> Result<String
         if c.fmt == "json" {
             let s = F::g_to_json(&g)?;
             Ok((F::g_from_json(&s)?, s))
-        } else {
+        } else if c.fmt == "cbor" {
             let b = F::g_to_cbor(&g)?;
             let txt = format!("{:?}", b);
             Ok((F::g_from_cbor(&b)?, txt))
+        } else {
+            F::g_roundtrip_fmt(&g, &c.fmt)
         }
     });
     set_seed(None);
@@ -348,11 +350,42 @@ pub struct CParams {
     /// operation / edge move applied through the node handles
     #[serde(default)]
     pub mutate: bool,
+    /// the other encodings / entry points of serde_json and serde_cbor
+    /// (packed, self-described, reader / writer, Value) instead of the main sweep
+    #[serde(default)]
+    pub formats: bool,
 }
+
+pub const MORE_FORMATS: [&str; 7] = ["cbor-packed", "cbor-selfdesc", "cbor-reader", "cbor-value", "json-value", "json-pretty-reader", "json-bytes"];
 
 pub fn sweep<F: Fl>(job: &Job, out: &mut Out) {
     let p: CParams = serde_json::from_value(job.params.clone()).expect("csweep params");
     let prop = job.property.as_str();
+    if p.formats {
+        // every other entry point / encoding of the two serde implementations,
+        // one hash seed and insertion order per shape
+        let all_shapes = if p.large > 0 { crate::gsweep::large_graphs(p.large).into_iter().map(|(_, n, c)| (n, c)).collect::<Vec<_>>() } else { shapes::<F>(p.n, p.max_l).into_iter().map(|c| (p.n, c)).collect() };
+        for (si, (n, conns)) in all_shapes.iter().enumerate() {
+            if si % job.nshards != job.shard {
+                continue;
+            }
+            out.stats.inc("shapes");
+            crate::progress::set_case(|| json!({"kind":"csweep-shape","flavour":F::NAME,"n":n,"conns":conns}).to_string());
+            for fmt in MORE_FORMATS {
+                crate::progress::tick();
+                let c = CCase { n: *n, conns: conns.clone(), insertion: (0..*n as K).collect(), seed: 3, seed2: 24, fmt: fmt.to_string(), then: vec![] };
+                out.stats.inc("evaluations");
+                out.stats.inc("other_formats");
+                if !conns.is_empty() {
+                    out.stats.inc("nontrivial");
+                }
+                if let Err((class, what)) = check_roundtrip::<F>(&c) {
+                    out.report(Violation { property: prop.into(), engine: "csweep".into(), flavour: F::NAME.into(), class, what: what.chars().take(700).collect(), case: json!({"kind":"csweep","flavour":F::NAME,"case":c,"program":c.program(F::NAME)}), order: (conns.len() * 100 + n + 70) as u64 });
+                }
+            }
+        }
+        return;
+    }
     if p.large > 0 {
         for (gi, (name, n, conns)) in crate::gsweep::large_graphs(p.large).iter().enumerate() {
             if gi % job.nshards != job.shard {
